@@ -14,7 +14,7 @@ use std::time::Instant;
 
 pub const DEFAULT_SEED: u64 = 20260927;
 /// wall-clock hang detector threshold per scenario (scenarios take micro- to milliseconds)
-pub const HANG_SECS: u64 = 90;
+pub const HANG_SECS: u64 = 300;
 
 #[derive(Clone, Copy, Debug, PartialEq, Eq)]
 pub enum Tier {
